@@ -398,8 +398,7 @@ def install_late(spec: Spec):
                     # `await event_result` past `except Exception`, whatever raise_if_any says; such results exist only on events whose
                     # completion is never signalled today (second witness of F5), so the accessor cannot get this far: declared, not a finding
                     RaisesClause('BaseException', label='recorded_non_exception_error', origin='call:EventResult.__await__.wait/recorded_error',
-                                 ensures=[('not_an_exception', 'not isinstance(raised, Exception)', ['C11'])]),
-                    RaisesClause('KeyError', label='dict_comprehension', caller_only=True)])
+                                 ensures=[('not_an_exception', 'not isinstance(raised, Exception)', ['C11'])])])
     spec.methods[('BaseEvent', 'event_results_filtered')] = 'BaseEvent.event_results_filtered'
 
     spec.fn('BaseEvent._event_result_is_truthy', file=M, qual='BaseEvent._event_result_is_truthy', params={'event_result': 'EventResult'}, returns='bool', allocates=False,
